@@ -268,7 +268,7 @@ def check_builder(rep, spec):
 
 
 # -------------------------------------------------------------------------- enumeration
-THETAS = [math.pi / 2, math.pi / 3, -0.7, math.pi, 2.5, 0.0]
+THETAS = [math.pi / 2, math.pi / 3, -0.7, 4.0, math.pi, 2 * math.pi - 0.3, 2.5, 0.0, -5.0]  # incl. angles outside [-pi, pi]
 AXES = [(1.0, 0.0, 0.0), (0.0, 1.0, 0.0), (0.0, 0.0, 1.0), (1 / math.sqrt(3),) * 3, (1 / 3, 2 / 3, 2 / 3), (0.0, -0.6, 0.8)]
 TRANSLATIONS = [(0.0, 0.0, 0.0), (1.0, -2.0, 0.5), (-3.25, 4.0, 10.0)]
 SCALES = [(2.0, 2.0, 2.0), (0.5, 3.0, 1.0), (1.0, 1.0, 1.0), (1.5, 0.25, 4.0)]
@@ -278,12 +278,12 @@ SHEARS = [[[1, 0.5, 0], [0, 1, 0], [0.25, 0, 2]], [[0, -1, 0], [1, 0, 0], [0, 0,
 def transform_params(rng, extra):
     out = [("translate", list(t)) for t in TRANSLATIONS] + [("scale", list(s)) for s in SCALES]
     out += [(op, [th]) for op in ("rotx", "roty", "rotz") for th in THETAS]
-    out += [("rotate", [list(n), th]) for n in AXES for th in THETAS[:4]]
+    out += [("rotate", [list(n), th]) for n in AXES for th in THETAS[:6]]
     for _ in range(extra):
         v = np.array([rng.gauss(0, 1) for _ in range(3)])
         v /= np.linalg.norm(v)
-        out.append(("rotate", [[float(a) for a in v], rng.uniform(-math.pi, math.pi)]))
-        out.append((rng.choice(["rotx", "roty", "rotz"]), [rng.uniform(-math.pi, math.pi)]))
+        out.append(("rotate", [[float(a) for a in v], rng.uniform(-7.0, 7.0)]))
+        out.append((rng.choice(["rotx", "roty", "rotz"]), [rng.uniform(-7.0, 7.0)]))
         out.append(("scale", [rng.uniform(0.2, 5) for _ in range(3)]))
         out.append(("translate", [rng.uniform(-20, 20) for _ in range(3)]))
     return out
@@ -317,7 +317,7 @@ def run(ctx):
             ctx.case("affine", spec)
     builders = [("scale3d", list(s)) for s in SCALES] + [("translate3d", list(t)) for t in TRANSLATIONS]
     builders += [(n, [th]) for n in ("rotate3d_x", "rotate3d_y", "rotate3d_z") for th in THETAS]
-    builders += [("rotate3d", [list(n), th]) for n in AXES for th in THETAS[:4]] + [("to_homogeneous", [])]
+    builders += [("rotate3d", [list(n), th]) for n in AXES for th in THETAS[:6]] + [("to_homogeneous", [])]
     for name, args in builders:
         spec = dict(kind="builder", name=name, args=args)
         check_builder(rep, spec)
@@ -327,7 +327,7 @@ def run(ctx):
     ctx.notes.append("root-centred transforms are judged by two separate clauses: 'centre-fixed' (the root does not move) and the offsets from the (new) root position "
                      "(root-relative-offsets-scaled / rotation-right-handed / rotation-rodrigues), so that a wrong centre and a wrong linear part are told apart")
     ctx.rule("every sorted parent table with <= 4 nodes (walk coordinates, root at (1,2,3), never at the origin) plus seeded random trees of 5-9 nodes x "
-             "{Translate, Scale, RotateX/Y/Z, Rotate(n, theta)} x parameter grid (3 offsets, 4 scale triples, 6 angles, 6 unit axes, seeded random extras) x centre modes "
+             "{Translate, Scale, RotateX/Y/Z, Rotate(n, theta)} x parameter grid (3 offsets, 4 scale triples, 9 angles incl. |theta| > pi, 6 unit axes, seeded random extras) x centre modes "
              "{origin, root, soma, default}; TranslateOrigin; AffineTransform with shear matrices and the homogeneous divide; the matrix builders on 6 points. "
              "Non-trivial = not the zero translation", exhaustive=False)
 
